@@ -26,6 +26,7 @@ def gen_texts(ctx):
     texts = [G.dec(l) for l in C.load_corpus("text")]
     texts += G.special_texts()
     texts += G.nesting_texts()
+    texts += G.joint_alias_texts(q)
     texts += G.escape_texts(rnd, 1500 if q else 20000)
     # token-count boundaries: truncated statements / programs padded to 63, 64, 65, 128 parser tokens
     ends = ["def f()", "def f() -", "a +", "a + ", "x = a", "for int i in", "gate g q", "U(1) q", "a <", "a >", "a &", "a |",
